@@ -28,7 +28,7 @@ for rel in sorted(files):
     path = os.path.join(REPO, rel)
     if not os.path.isfile(path):
         continue
-    tree = ast.parse(open(path).read())
+    tree = names.canon_consts(names.canon_compare(ast.parse(open(path).read())))
     ent = {}
     for sname, node in names.scopes(tree):
         fp = names.fingerprints(node)
